@@ -24,6 +24,23 @@ def build_registry(repo, prop):
     return idx, reg, mod
 
 
+def _generate(task):
+    """VCs of one function under contract: (function record, obligations with SMT-LIB text, extraction notes)"""
+    repo, prop, q = task
+    idx, reg, mod = build_registry(repo, prop)
+    r = verify_function(reg, q, prop)
+    eff = None
+    if r.fi is not None:
+        import hashlib
+        parts = [r.fi.sha()] + [idx.funcs[x].sha() for x in sorted(r.inlined) if x in idx.funcs]
+        eff = hashlib.sha256("|".join(parts).encode()).hexdigest()[:16]
+    f = dict(qual=q, error=r.error, n=len(r.obligations), eff_sha=eff,
+             path=r.fi.path if r.fi else None, sha=r.fi.sha() if r.fi else None,
+             file_sha=idx.file_sha.get(r.fi.path) if r.fi else None,
+             inlined=r.inlined, called=r.called, trusted=r.trusted)
+    return f, r.obligations, r.dropped
+
+
 def run(prop, tier, repo, short_patterns=()):
     if not os.path.exists(os.path.join(os.path.dirname(os.path.dirname(os.path.abspath(__file__))), "specs", prop + ".py")):
         return None
@@ -32,26 +49,25 @@ def run(prop, tier, repo, short_patterns=()):
     out = dict(functions=[], obligations=[], vacuous=[], lemmas=0, dropped=[], trusted=set(), inlined=set(),
                assumptions=list(getattr(mod, "ASSUMPTIONS", [])))
     todo = []
-    for q in getattr(mod, "FUNCTIONS", []):
-        if ONLY and not any(x in q for x in ONLY):
-            continue
-        r = verify_function(reg, q, prop)
-        eff = None
-        if r.fi is not None:
-            import hashlib
-            parts = [r.fi.sha()] + [idx.funcs[x].sha() for x in sorted(r.inlined) if x in idx.funcs]
-            eff = hashlib.sha256("|".join(parts).encode()).hexdigest()[:16]
-        f = dict(qual=q, error=r.error, n=len(r.obligations), eff_sha=eff,
-                 path=r.fi.path if r.fi else None, sha=r.fi.sha() if r.fi else None,
-                 file_sha=idx.file_sha.get(r.fi.path) if r.fi else None,
-                 inlined=r.inlined, called=r.called, trusted=r.trusted)
+    quals = [q for q in getattr(mod, "FUNCTIONS", []) if not ONLY or any(x in q for x in ONLY)]
+    # VC generation: one FRESH process per function (so that generated names, hence the VC text and the solvers'
+    # behaviour, do not depend on which other functions were processed before), up to 16 at a time
+    if len(quals) > 1:
+        import multiprocessing
+        ctx_mp = multiprocessing.get_context("fork")
+        with ctx_mp.Pool(min(16, len(quals)), maxtasksperchild=1) as pool:
+            gen = pool.map(_generate, [(repo, prop, q) for q in quals], chunksize=1)
+    else:
+        gen = [_generate((repo, prop, q)) for q in quals]
+    for q, (f, obls, dropped) in zip(quals, gen):
         out["functions"].append(f)
-        out["dropped"] += r.dropped
-        out["trusted"] |= set(r.trusted)
-        out["inlined"] |= set(r.inlined)
-        if r.error is None and not any(o["kind"] != "cover" for o in r.obligations):
+        out["dropped"] += dropped
+        out["trusted"] |= set(f["trusted"])
+        out["inlined"] |= set(f["inlined"])
+        if f["error"] is None and not any(o["kind"] != "cover" for o in obls):
             out["vacuous"].append("no obligation generated for " + q)
-        for o in r.obligations:
+        eff = f["eff_sha"]
+        for o in obls:
             o["function"] = q
             o["source_sha"] = f["sha"]
             o["eff_sha"] = eff
